@@ -74,3 +74,16 @@ Definition cited_by (cites : list key) (k : key) : bool := existsb (keyb k) cite
 Definition parents_follow_children (db : list entry) (cites : list key) : Prop :=
   forall i c p j, nth_error db i = Some (c, Some p) -> first_index c db = Some i -> cited_by cites c = true ->
     first_index p db = Some j -> cited_by cites p = true \/ i < j.
+
+(* ---- cross-reference chains: which entries a reading must keep *)
+(* the first entry of the file whose key is q (up to case) *)
+Definition first_entry (q : key) (db : list entry) : option entry := find (fun e => keyb q (fst e)) db.
+(* reachable from the citations: cited, or named by the crossref of (the first entry of) a reachable key *)
+Inductive reach (db : list entry) (cites : list key) : key -> Prop :=
+| reach_cited q : cited_by cites q = true -> reach db cites q
+| reach_step c ck p : reach db cites c -> first_entry c db = Some (ck, Some p) -> reach db cites p.
+(* the ordering rule along whole chains: the (uncited) cross-reference target of every REACHABLE entry comes
+   after it in the file *)
+Definition ancestors_follow_descendants (db : list entry) (cites : list key) : Prop :=
+  forall c ck p i j, reach db cites c -> first_entry c db = Some (ck, Some p) ->
+    first_index c db = Some i -> first_index p db = Some j -> cited_by cites p = true \/ i < j.
